@@ -7,7 +7,7 @@
    applied tree.
 
    The faithful model (Model/Transform14.v, tied to breezy/transform.py and breezy/bzr/transform.py by
-   the correspondence run; code after the repair round 2ecf5bb 33f6199 4df7934) does NOT satisfy the full
+   the correspondence run; code after the repair rounds 2ecf5bb 33f6199 4df7934 3ace332) does NOT satisfy the full
    statement; each clause that still fails has a machine-checked witness below (reproduced on the real
    code, registered as known findings, see notes/C14.md), next to the strongest statements that hold.  Path rendering and the rename sequence of apply are tied
    by the correspondence run only (the latter is C13's subject). *)
@@ -144,22 +144,28 @@ Proof. eexists. eexists. split; [vm_compute; reflexivity|]. split; [discriminate
 Example C14_resolve_malformed_nontrivial : resolve_conflicts w_base (w_state w_exec) = Malformed.
 Proof. vm_compute. reflexivity. Qed.
 
-(* STILL REFUTED (known findings C14-resolve-keyerror, -duplicatekey, -recursionerror): "clean or
-   MalformedTransform".  A parent loop between two new directories makes resolve_parent_loop raise KeyError
-   (get_tree_parent of a trans id without tree path); a child below a file versioned in this transform
-   makes resolve_non_directory_parent raise DuplicateKey; an unversioned new directory inside a parent loop
-   makes the id fabrication of resolve_unversioned_parent (4df7934) recurse in FinalPaths. *)
+(* STILL REFUTED (known findings C14-resolve-keyerror, -duplicatekey): "clean or MalformedTransform".  A
+   parent loop between two new directories makes resolve_parent_loop raise KeyError (get_tree_parent of a
+   trans id without tree path) -- also when one of them first gets a fabricated file id (w_unv_loop;
+   RecursionError between 4df7934 and 3ace332); a child below a file versioned in this transform makes
+   resolve_non_directory_parent raise DuplicateKey. *)
 Theorem C14_resolve_clean_or_malformed_refuted :
   (exists base t, resolve_conflicts base t = Raised "KeyError")
-  /\ (exists base t, resolve_conflicts base t = Raised "DuplicateKey")
-  /\ (exists base t, resolve_conflicts base t = Raised "RecursionError").
+  /\ (exists base t, resolve_conflicts base t = Raised "DuplicateKey").
 Proof.
-  split; [|split].
+  split.
   - exists w_base, (w_state w_loop). vm_compute. reflexivity.
   - exists w_base, (w_state w_dupkey). vm_compute. reflexivity.
-  - exists w_base, (w_state w_unv_loop). vm_compute. reflexivity.
 Qed.
 Print Assumptions C14_resolve_clean_or_malformed_refuted.
+
+Example C14_unversioned_new_parent_in_new_loop : resolve_conflicts w_base (w_state w_unv_loop) = Raised "KeyError".
+Proof. vm_compute. reflexivity. Qed.
+(* repaired by 3ace332: an unversioned tree directory with a versioned child inside a parent loop *)
+Example C14_unversioned_parent_in_loop_resolved :
+  let t := match run_ops w_base_u 0 w_unv_selfloop (init_tt w_base_u) with inl t => t | inr _ => init_tt w_base_u end in
+  exists t' n, resolve_conflicts w_base_u t = Clean t' n /\ final_file_id w_base_u t' 1 = Some (gen_fid 1).
+Proof. eexists. eexists. split; vm_compute; reflexivity. Qed.
 
 (* repaired by 4df7934: a versioned file in a new unversioned directory is resolved (the directory gets a
    fresh file id) *)
